@@ -31,6 +31,8 @@ type Spec struct {
 	NoStutter bool
 	// Prefix: fixed rings placed before the enumerated one (any-scopes): e.g. a fixed shell with an enumerated hole
 	Prefix [][]ref.P
+	// Suffix: fixed rings placed after the enumerated ones (any-scopes): e.g. an enumerated shell with a fixed hole
+	Suffix [][]ref.P
 	// Explicit: a stated finite family of polygons instead of the free search (each is one state)
 	Explicit [][][]ref.P
 }
@@ -203,10 +205,10 @@ func (wk *walker) anyRing(done [][]ref.P, r []ref.P, ringNo int) {
 		minK = 1
 	}
 	if len(r) >= minK {
-		wk.rings = append(append(append([][]ref.P{}, wk.spec.Prefix...), done...), r)
+		wk.rings = append(append(append(append([][]ref.P{}, wk.spec.Prefix...), done...), r), wk.spec.Suffix...)
 		wk.emit()
 		if ringNo < wk.spec.MaxHoles {
-			wk.anyRing(wk.rings[len(wk.spec.Prefix):], nil, ringNo+1)
+			wk.anyRing(wk.rings[len(wk.spec.Prefix):len(wk.rings)-len(wk.spec.Suffix)], nil, ringNo+1)
 		}
 	}
 	if len(r) == maxK {
@@ -280,10 +282,10 @@ func Enumerate(spec Spec, workers int, stop func() bool, visit func(w int, rings
 					} else {
 						wk.st.States++
 						if spec.MinK <= 1 {
-							wk.rings = append(append([][]ref.P{}, spec.Prefix...), r)
+							wk.rings = append(append(append([][]ref.P{}, spec.Prefix...), r), spec.Suffix...)
 							wk.emit()
 							if spec.MaxHoles > 0 {
-								wk.anyRing(wk.rings[len(spec.Prefix):], nil, 1)
+								wk.anyRing(wk.rings[len(spec.Prefix):len(wk.rings)-len(spec.Suffix)], nil, 1)
 							}
 						}
 					}
